@@ -25,6 +25,13 @@ def witness(title_prefix):
 
 
 from props._session import SessionStream, grammar_failures, protocol_following
+from props._skiptable import handle_exception_table
+
+
+def tables(ctx):
+    # the error handler of the runner, executed on every exception class x constructor-argument shape: it must come back
+    # (an exception escaping it leaves a test / phase started and never ended) — obligation Generated/C07TablesCheck.lean
+    return [handle_exception_table()]
 
 
 class Sess(SessionStream):
